@@ -340,6 +340,63 @@ func c11Race(driver, scen string, bound int) vh.Unit {
 	}}
 }
 
+// a busy node: it reports hundreds of peers, all of which keep checking in; however many there are
+// and in whatever order it lists them, none of them is ever declared invalid or dropped
+func c11WideReports(driver string, nPeers int) vh.Unit {
+	name := fmt.Sprintf("wide-reports/%s/x%d", driver, nPeers)
+	return vh.Unit{Name: name, Run: func(u *vh.U) {
+		vsched.ResetClock(0)
+		pw := vh.NewPoolWorld(vh.PoolConfig{Driver: driver, NoManager: true})
+		N := vh.Identities()[0]
+		pw.Store.SetNode(store.Node{ID: store.NodeID(N.NodeID), Kind: "geth", LastSeen: vsched.Now()})
+		peers := make([]string, nPeers)
+		for i := range peers {
+			peers[i] = fmt.Sprintf("%0128x", 0xabc000+i)
+			pw.Store.SetNode(store.Node{ID: store.NodeID(peers[i]), Kind: "geth", IsHost: true, LastSeen: vsched.Now()})
+		}
+		for round := 0; round < 5; round++ {
+			if u.Expired() {
+				return
+			}
+			// the report lists the peers in a different order every time
+			report := make([]string, nPeers)
+			for i := range report {
+				report[i] = peers[(i*7+round*131)%nPeers]
+			}
+			if round == 4 {
+				for i, j := 0, len(report)-1; i < j; i, j = i+1, j-1 {
+					report[i], report[j] = report[j], report[i]
+				}
+			}
+			resp, err := pw.Update(N, report, uint64(round))
+			u.R.Evaluations++
+			u.R.States++
+			u.R.Transitions++
+			u.R.Traces++
+			desc := fmt.Sprintf("round %d at %s: a node reporting %d peers that all check in every 50 s", round, vsched.Elapsed(), nPeers)
+			if err != nil || resp == nil {
+				u.Violate("pool/"+driver+"/update-error", fmt.Sprintf("%s: %v", desc, err), nil)
+				return
+			}
+			u.Observe(fmt.Sprintf("round %d invalid=%d active=%d", round, len(resp.InvalidPeers), len(resp.ActivePeers)))
+			if len(resp.InvalidPeers) != 0 {
+				u.Violate("pool/"+driver+"/invalid-peers", fmt.Sprintf("%s: %d live, reported peers were declared invalid (first: %s...)", desc, len(resp.InvalidPeers), resp.InvalidPeers[0][:12]), nil)
+				return
+			}
+			tracked, _ := pw.Store.NodePeers(store.NodeID(N.NodeID))
+			if len(tracked) != nPeers {
+				u.Violate("pool/"+driver+"/active-peers", fmt.Sprintf("%s: %d peers are tracked as active", desc, len(tracked)), nil)
+				return
+			}
+			vsched.Advance(50 * time.Second)
+			for _, p := range peers {
+				pw.Store.UpdateNodePeers(store.NodeID(p), nil, uint64(round))
+			}
+		}
+		u.Sample(fmt.Sprintf("%d peers, 5 keep-alive rounds 50 s apart, report order permuted every round", nPeers))
+	}}
+}
+
 func shortAll(ids []string) []string {
 	r := make([]string, len(ids))
 	for i, x := range ids {
@@ -377,6 +434,14 @@ func init() {
 				for s := 0; s < 4; s++ {
 					us = append(us, c11PoolUnit(vh.Memory, 4, s, 4))
 					us = append(us, c11PoolUnit(vh.Badger, 3, s, 4))
+				}
+			}
+			for _, d := range vh.Drivers {
+				for _, n := range []int{40, 300, 1100} {
+					if n > 300 && tier != "thorough" {
+						continue
+					}
+					us = append(us, c11WideReports(d, n))
 				}
 			}
 			for _, d := range vh.Drivers {
